@@ -78,9 +78,11 @@ class Redirect(Suite):
         from swcgeom.core.tree_utils import redirect_tree
 
         t = gen.make_tree(case["tree"])
+        t.ndata["tag"] = (1000.0 + np.arange(case["tree"]["n"])).astype(np.float32)      # a per-node column beyond the seven standard ones
         before = {k: v.copy() for k, v in t.ndata.items()}
         y = redirect_tree(t, case["root"], sort=case["sort"])
         return {"pid": y.pid().tolist(), "id": y.id().tolist(), "type": y.type().tolist(), "r": [float(v) for v in y.r()],
+                "tag": [float(v) for v in y.get_ndata("tag")] if "tag" in y.keys() else None,
                 "xyz": y.xyz().astype(float).tolist(), "input_unchanged": bool(all(np.array_equal(before[k], t.ndata[k]) for k in before))}
 
     def lines(self, case, res):
@@ -112,6 +114,8 @@ class Redirect(Suite):
                 out.append(("redirect-attrs", f"position of node {o} changed")); break
             if res["type"][j] != want_type[o]:
                 out.append(("redirect-types", f"type of old node {o} is {res['type'][j]}, expected {want_type[o]} (only old/new root exchanged)")); break
+        if res.get("tag") != [1000.0 + o for o in old]:
+            out.append(("redirect-attrs", f"the extra per-node column does not follow its nodes: {str(res.get('tag'))[:80]}, nodes are (old ids) {old[:10]}"))
         new_pids_old = [-1 if res["pid"][new_of[o]] == -1 else old[res["pid"][new_of[o]]] for o in range(n)]
         if und_edges(new_pids_old) != und_edges(pids):
             out.append(("redirect-edges", f"undirected edges changed: {und_edges(pids)} → {und_edges(new_pids_old)} (pids={pids}, new root {k})"))
@@ -170,9 +174,12 @@ class CatSuite(Suite):
         from swcgeom.core.tree_utils import cat_tree
 
         a, b = gen.make_tree(case["t1"]), gen.make_tree(case["t2"])
+        a.ndata["tag"] = (1000.0 + np.arange(case["t1"]["n"])).astype(np.float32)
+        b.ndata["tag"] = (5000.0 + np.arange(case["t2"]["n"])).astype(np.float32)
         before = [{k: v.copy() for k, v in t.ndata.items()} for t in (a, b)]
         y = cat_tree(a, b, case["n1"], case["n2"], translate=case["translate"])
         return {"pid": y.pid().tolist(), "id": y.id().tolist(), "type": y.type().tolist(), "r": [float(v) for v in y.r()],
+                "tag": [float(v) for v in y.get_ndata("tag")] if "tag" in y.keys() else None,
                 "xyz": y.xyz().astype(float).tolist(),
                 "inputs_unchanged": bool(all(np.array_equal(before[i][k], t.ndata[k]) for i, t in enumerate((a, b)) for k in before[i]))}
 
@@ -218,6 +225,8 @@ class CatSuite(Suite):
                 out.append(("cat-positions", f"node {(s, o)} is at {res['xyz'][j]}, expected {want} (translate={case['translate']})")); break
             if s == 1 and res["type"][j] != t1["types"][o]:
                 out.append(("cat-types", f"type of tree1 node {o} changed")); break
+        if res.get("tag") != [(1000.0 if s_ == 1 else 5000.0) + o for s_, o in src]:
+            out.append(("cat-attrs", f"the extra per-node column does not follow its nodes: {str(res.get('tag'))[:80]} for nodes {src[:8]}"))
         # edges: tree1's edges, tree2's undirected edges, the junction; nothing else
         E = set()
         for i, p in enumerate(t1["pids"]):
